@@ -436,15 +436,15 @@ type tierCfg struct {
 }
 
 func tierOf(prop, tier string) tierCfg {
-	q := map[string]int{"C01": 1600, "C02": 1200, "C03": 1200, "C04": 1000, "C05": 1200, "C06": 1200, "C07": 1200, "C08": 1000, "C09": 1500, "C10": 500, "C11": 1000, "C12": 1600, "C15": 800, "C16": 1000}
+	q := map[string]int{"C01": 12000, "C02": 12000, "C03": 12000, "C04": 2500, "C05": 14000, "C06": 20000, "C07": 3000, "C08": 12000, "C09": 15000, "C10": 6000, "C11": 15000, "C12": 12000, "C15": 10000, "C16": 10000}
 	n := q[prop]
 	if n == 0 {
 		n = 800
 	}
 	if tier == "thorough" {
-		return tierCfg{runs: n * 25, budgetS: 1500}
+		return tierCfg{runs: n * 40, budgetS: 1500}
 	}
-	return tierCfg{runs: n, budgetS: 100}
+	return tierCfg{runs: n, budgetS: 120}
 }
 
 func check(prop string, seed uint64, tier string, maxRuns, workers int, base, verif string) int {
